@@ -46,8 +46,31 @@ def variant_of(node):
     return None, None
 
 
+_SPECIAL = ("__eq__", "__ne__", "__hash__", "__setattr__", "__delattr__", "__lt__", "__le__", "__gt__", "__ge__", "__getattribute__", "__getattr__")
+_CLASS_OK = {}
+
+
+def class_problem(cls):
+    """a special method written by hand in the class body (the dataclass decorator compiles the ones it generates from "<string>"), or no hash"""
+    if cls not in _CLASS_OK:
+        bad = None
+        for k in _SPECIAL:
+            fn = vars(cls).get(k)
+            fname = getattr(getattr(fn, "__code__", None), "co_filename", None)
+            if fname is not None and not fname.startswith("<") and not fname.endswith("dataclasses.py"):
+                bad = "own-special:%s.%s" % (cls.__name__, k)
+                break
+        if bad is None and getattr(cls, "__hash__", None) is None:
+            bad = "own-special:%s.__hash__=None" % cls.__name__
+        _CLASS_OK[cls] = bad
+    return _CLASS_OK[cls]
+
+
 def check_node(n, copy):
     cls = type(n).__name__
+    p = class_problem(type(n))
+    if p:
+        return p
     for f in dataclasses.fields(n):
         try:
             setattr(n, f.name, getattr(n, f.name))
@@ -191,4 +214,133 @@ def cmd_help(parts):
     return "OK " + " ".join(out) + (" " if out else "") + "final=" + canon.dump(cur)
 
 
-COMMANDS = {"IMM": cmd_imm, "HELP": cmd_help}
+# ---------------------------------------------------------------------------------------------------------------------
+# cross-tree checks on a pool of near-identical trees
+# ---------------------------------------------------------------------------------------------------------------------
+
+def positions(v, path=()):
+    """(path, node) of every node, paths = field names and tuple indexes"""
+    if is_node(v):
+        yield path, v
+        for f in dataclasses.fields(v):
+            yield from positions(getattr(v, f.name), path + (f.name,))
+    elif isinstance(v, (tuple, list)):
+        for i, x in enumerate(v):
+            yield from positions(x, path + (i,))
+
+
+def leaf_diffs(a, b, out, limit=3):
+    """'Class.field' of the leaves in which two values differ (stops after `limit`)"""
+    if len(out) >= limit:
+        return
+    if is_node(a) and is_node(b) and type(a) is type(b):
+        for f in dataclasses.fields(a):
+            x, y = getattr(a, f.name), getattr(b, f.name)
+            if is_node(x) and is_node(y) and type(x) is type(y):
+                leaf_diffs(x, y, out, limit)
+            elif isinstance(x, tuple) and isinstance(y, tuple) and len(x) == len(y):
+                for p_, q_ in zip(x, y):
+                    if is_node(p_) or isinstance(p_, tuple):
+                        leaf_diffs(p_, q_, out, limit) if (is_node(p_) and is_node(q_) and type(p_) is type(q_)) else (out.append(type(a).__name__ + "." + f.name) if canon.dump(p_) != canon.dump(q_) else None)
+                    elif canon.dump(p_) != canon.dump(q_):
+                        out.append(type(a).__name__ + "." + f.name)
+            elif canon.dump(x) != canon.dump(y):
+                out.append(type(a).__name__ + "." + f.name)
+    elif canon.dump(a) != canon.dump(b):
+        out.append("?")
+
+
+def pair_problem(a, da, b, db):
+    """structural equality on one pair: == ⇔ same class and same dump; != is its negation; == ⇒ same hash"""
+    same = type(a) is type(b) and da == db
+    eq = (a == b)
+    if eq is not True and eq is not False:
+        return "eq-not-bool:%s" % type(a).__name__
+    if eq != same:
+        d = []
+        leaf_diffs(a, b, d, 1)
+        return "eq-vs-structure:%s:%s:%s" % (type(a).__name__, "equal-but-differ-in" if eq else "differ-but-same-dump", d[0] if d else "-")
+    if (a != b) == eq:
+        return "ne-vs-eq:%s" % type(a).__name__
+    if eq and hash(a) != hash(b):
+        return "hash-vs-eq:%s" % type(a).__name__
+    return None
+
+
+def cross_checks(trees, want_cov=False):
+    """(number of nodes, number of distinct dumps, first problem or None, leaf fields in which exactly-one-leaf pairs differ)"""
+    pos = [dict(positions(t)) for t in trees]
+    nodes, dumps = [], []
+    for pmap in pos:
+        for n in pmap.values():
+            nodes.append(n)
+            dumps.append(canon.dump(n))
+    dump_of = {id(n): d for n, d in zip(nodes, dumps)}
+    problem, cov = None, set()
+    for i in range(len(pos)):                       # nodes at corresponding positions of every two trees
+        for j in range(i + 1, len(pos)):
+            for path, a in pos[i].items():
+                b = pos[j].get(path)
+                if b is None:
+                    continue
+                if problem is None:
+                    problem = pair_problem(a, dump_of[id(a)], b, dump_of[id(b)])
+                if want_cov and type(a) is type(b) and dump_of[id(a)] != dump_of[id(b)]:
+                    d = []
+                    leaf_diffs(a, b, d, 2)
+                    if len(d) == 1:
+                        cov.add(d[0])
+    by_class = {}
+    for n in nodes:                                 # all pairs within a class (first 40 nodes of each class)
+        by_class.setdefault(type(n), []).append(n)
+    for cls, ns in by_class.items():
+        ns = ns[:40]
+        for i in range(len(ns)):
+            for j in range(i + 1, len(ns)):
+                if problem is None:
+                    problem = pair_problem(ns[i], dump_of[id(ns[i])], ns[j], dump_of[id(ns[j])])
+    if problem is None:
+        try:
+            if len(set(nodes)) != len(set(dumps)):
+                problem = "set-size:%d-vs-%d" % (len(set(nodes)), len(set(dumps)))
+            elif len({n: 1 for n in nodes}) != len(set(dumps)):
+                problem = "dict-size"
+        except TypeError as e:
+            problem = "hash:" + type(e).__name__
+    return len(nodes), len(set(dumps)), problem, cov
+
+
+def parse_pool(parts):
+    from metasequoia_sql import SQLParser, SQLType
+    st = SQLType[parts[1]]
+    status, trees = [], []
+    for h in parts[2:]:
+        try:
+            trees.append(SQLParser.parse_statements(canon.unhex(h), sql_type=st))
+            status.append("P")
+        except Exception as e:
+            k = canon.err_kind(e)
+            if k.startswith("UNMODELLED"):
+                return None, None
+            status.append(k.replace(" ", "_"))
+    return status, trees
+
+
+def cmd_pool(parts):
+    status, trees = parse_pool(parts)
+    if status is None:
+        return "UNMODELLED pool"
+    n, distinct, problem, _ = cross_checks(trees)
+    return "OK t=%s n=%d distinct=%d checks=%s" % (",".join(status), n, distinct, problem or "ok")
+
+
+def cmd_pairs(parts):
+    """(implementation only) the cross-tree checks plus the leaf fields witnessed by pairs that differ in exactly one leaf"""
+    status, trees = parse_pool(parts)
+    if status is None:
+        return "UNMODELLED pool"
+    n, distinct, problem, cov = cross_checks(trees, want_cov=True)
+    return "OK checks=%s leaves=%s" % (problem or "ok", ",".join(sorted(cov)))
+
+
+COMMANDS = {"IMM": cmd_imm, "HELP": cmd_help, "POOL": cmd_pool, "PAIRS": cmd_pairs}
